@@ -157,7 +157,7 @@ def oracle_c01(d):
                 # (a copy the test could have used was there and was cleaned away: that explains the miss, whatever other,
                 # unusable copies exist elsewhere)
                 removed_again = usable or removed_again
-                parsing = "up-front parsing" if d.eager else f"lazy parsing, {expansion_note(d, entry['cls'], min(e['seq'] for e in removed_again))}"
+                parsing = "up-front parsing" if d.eager else f"lazy parsing, {expansion_note(d, entry['cls'], min(e['seq'] for e in removed_again), entry['w'])}"
                 same = "the same worker's" if all(e["loc"].startswith(entry["w"] + ":") for e in removed_again) else "another worker's"
                 mechanism = f"state produced in this run was removed from {same} pool by a cleanup before a pending dependant started ({parsing})"
             elif listed_but_not_permitted:
@@ -409,11 +409,11 @@ def oracle_c04(d, case):
 IDLE_BOUNCE_BOUND = 10
 
 
-def expansion_note(d, cls, seq):
-    """Under lazy parsing: had any worker expanded the selected test this class comes from before event number seq?"""
+def expansion_note(d, cls, seq, victim):
+    """Under lazy parsing: who had expanded the selected test this class comes from before event number seq?"""
     from vlib.travsim import class_key
     base, _, objects = cls.partition(".vms.")
-    refused = False
+    refused, others, own = False, False, False
     for event in d.events:
         if event["seq"] >= seq:
             break
@@ -426,11 +426,18 @@ def expansion_note(d, cls, seq):
                 refused = True
         for child in event["children"]:
             child_cls = class_key(child, d.main_restrictions)
-            child_base, _, child_objects = child_cls.partition(".vms.")
-            # clones carry the producing variant after the name of the test they were cloned from
-            # (the code's rule is per selected test, whatever object variants the expanding worker supports)
+            child_base = child_cls.partition(".vms.")[0]
+            # clones carry the producing variant after the name of the test they were cloned from; the code's rule is per
+            # selected test, whatever object variants the expanding worker supports
             if base == child_base or base.startswith(child_base + "."):
-                return "dependant already expanded by some worker"
+                if event["net"] == victim:
+                    own = True
+                else:
+                    others = True
+    if own:
+        return "dependant already expanded by the worker that needs it"
+    if others:
+        return "dependant expanded by other workers only"
     if refused:
         return "dependant expanded by nobody yet but found incompatible with some worker"
     return "dependant not yet expanded by any worker"
@@ -521,7 +528,7 @@ def oracle_c05(d, case):
                 same_swarm = d.workers[e["w"]]["swarm"] == d.workers.get(owner, {}).get("swarm")
                 relation = "on the same worker" if same_worker else ("of the same swarm" if same_swarm else "of another swarm")
                 parsing = "up-front parsing" if case.get("eager") else \
-                    ("lazy parsing" if when == "running" else f"lazy parsing, {expansion_note(d, e['cls'], event['seq'])}")
+                    ("lazy parsing" if when == "running" else f"lazy parsing, {expansion_note(d, e['cls'], event['seq'], e['w'])}")
                 mechanism = f"state removed while a dependant {relation} was {when} ({parsing})"
                 findings.append((mechanism, f"{key} removed at {event['loc']} t={event['t']} by {event.get('w')}; dependants "
                                  f"{[(x['w'], x['cls'], x['t0'], x['t1'], w) for x, w in relevant]}"))
@@ -587,6 +594,11 @@ def oracle_c08(d, case):
         if worker_of_name(entry["name"]) != entry["w"] or entry.get("task") not in (None, entry["w"]):
             findings.append(("test executed by a worker it was not parsed for",
                              f"{entry['cls']} named for {worker_of_name(entry['name'])} executed by {entry['w']} (task {entry.get('task')})"))
+        if entry.get("session_w") is not None:
+            counters["spawner_connections_audited"] += 1
+            if entry["session_w"] != entry["w"]:
+                findings.append(("test handed to the spawner over another worker's connection",
+                                 f"{entry['cls']} of {entry['w']} would be spawned through the session of {entry['session_w']}"))
         for key, column in (("nets_host", "host"), ("nets_gateway", "gateway"), ("nets_spawner", "spawner"),
                             ("nets_shell_host", "shell_host"), ("nets_shell_port", "shell_port")):
             if str(entry.get(key)) != str(worker[column]):
@@ -634,6 +646,13 @@ def oracle_c08(d, case):
                         findings.append(("access parameters of a named source worker missing or wrong",
                                          f"{entry['cls']} on {entry['w']}: {pkey}_{wid}={got!r} expected {value!r}"))
                         break
+    # state requests travel over the connection of the worker that makes them
+    for event in d.events:
+        if event["k"] == "door" and event.get("task"):
+            counters["state_requests_audited"] += 1
+            if event["w"] != event["task"]:
+                findings.append(("state request sent over another worker's connection",
+                                 f"{event['action']} for {event.get('node')} by {event['task']} went through the session of {event['w']}"))
     return findings, counters
 
 
